@@ -549,6 +549,21 @@ func record(c *Case, results []*runResult) {
 			lbls = append(lbls, "case:shared-"+n)
 		}
 	}
+	seen := map[*ModSpec]bool{}
+	for _, n := range m.order {
+		if sp := m.live[n].spec; seen[sp] {
+			lbls = append(lbls, "case:two-live-instances-of-one-module")
+			break
+		} else {
+			seen[sp] = true
+		}
+	}
+	for _, st := range c.Script {
+		if st.Acc == "rtcall" || st.Acc == "rcall" {
+			lbls = append(lbls, "case:with-tail-call-accessor")
+			break
+		}
+	}
 	if m.reexpUse > 0 {
 		lbls = append(lbls, "case:re-exported-import-of-a-definer-with-function-imports")
 	}
